@@ -24,6 +24,7 @@ type GenConfig struct {
 	Raw            int  // weight of raw (C12 only)
 	Serve          int  // weight of serve (chunks of a file delivered to the peer; C17)
 	GCRace         int  // weight of gcr (collection with an operation racing with the first eviction; C12)
+	DelRace        int  // weight of delr (DELETE held at DelFile's entry while an overlapping upload / DELETE completes; C16)
 	Dirs           bool
 	Budget         int // full-chunk units a case may upload / transfer (cost bound)
 }
@@ -244,6 +245,32 @@ func GenHistory(r *core.Rand, cfg GenConfig) []string {
 				}
 			}
 			ops = append(ops, fmt.Sprintf("gcr %d %s %s %s %s", r.Pick([]int{0, 0, 1, 2, 3}), trig, act, tgt, which))
+		}},
+		{cfg.DelRace, func() {
+			a := anyOf()
+			if len(atN) > 0 && r.Chance(70) {
+				a = atN[r.Intn(len(atN))]
+			}
+			if r.Chance(60) {
+				b := pickSpec()
+				if b == a {
+					return
+				}
+				budget -= cost(b)
+				pin := "0"
+				if r.Chance(cfg.PinUploads) {
+					pin = "1"
+				}
+				ops = append(ops, "delr "+a+" up "+b+" "+pin)
+				atN = append(atN, b)
+				note(b)
+			} else {
+				b := anyOf()
+				if b == a {
+					return
+				}
+				ops = append(ops, "delr "+a+" del "+b+" -")
+			}
 		}},
 		{cfg.Raw, func() {
 			l := r.Pick([]int{0, 1, 2, 3})
